@@ -502,6 +502,14 @@ func (b *backend) propFindAddressBook(ctx context.Context, propfind *internal.Pr
 		}),
 	}
 
+	if len(ab.SupportedAddressData) > 0 {
+		types := make([]addressDataType, len(ab.SupportedAddressData))
+		for i, t := range ab.SupportedAddressData {
+			types[i] = addressDataType{ContentType: t.ContentType, Version: t.Version}
+		}
+		props[supportedAddressDataName] = internal.PropFindValue(&supportedAddressData{Types: types})
+	}
+
 	if ab.Name != "" {
 		props[internal.DisplayNameName] = internal.PropFindValue(&internal.DisplayName{
 			Name: ab.Name,
